@@ -122,8 +122,7 @@ Proof.
   - left. now apply fill_with_cur.
   - (* fill_rect *) unfold fill_rect. cbn [with_cur d_ctm d_clips].
     destruct (xf_is_identity (d_ctm st) && _ && _).
-    + right. destruct (chk32 _); cbn [bind lift_cur]; [|split; [reflexivity|discriminate]].
-      destruct (chk32 _); cbn [bind lift_cur]; [|split; [reflexivity|discriminate]].
+    + right. cbv zeta.
       change (surface_rect (with_cur st c)) with (surface_rect st).
       destruct (r_empty _).
       * split; [reflexivity|intros s' E; inversion E; reflexivity].
@@ -136,14 +135,12 @@ Proof.
       * intros s' E. inversion E. destruct (set_dest_other st (map (fun _ => if d_probe st =? -1 then 1 else c0) dest)) as (_ & _ & _ & _ & A5 & _). exact A5.
     + left. change (with_ctm (with_cur st c) xf_identity) with (with_cur (with_ctm st xf_identity) c).
       rewrite fill_with_cur by exact R. reflexivity.
-  - (* mask *) right. unfold mask_op. destruct (chk32 _); cbn [bind lift_cur]; [|split; [reflexivity|discriminate]].
-    destruct (chk32 _); cbn [bind lift_cur]; [|split; [reflexivity|discriminate]].
+  - (* mask *) right. unfold mask_op. cbv zeta.
     rewrite composite_with_cur. split; [reflexivity|]. intros s' E. now apply composite_cur in E.
   - (* draw_image_at: a fill_rect *)
     unfold draw_image_at, draw_image_with_size_at, fill_rect. cbn [with_cur d_ctm d_clips].
     destruct (xf_is_identity (d_ctm st) && _ && _).
-    + right. destruct (chk32 _); cbn [bind lift_cur]; [|split; [reflexivity|discriminate]].
-      destruct (chk32 _); cbn [bind lift_cur]; [|split; [reflexivity|discriminate]].
+    + right. cbv zeta.
       change (surface_rect (with_cur st c)) with (surface_rect st).
       destruct (r_empty _).
       * split; [reflexivity|intros s' E; inversion E; reflexivity].
@@ -151,8 +148,7 @@ Proof.
     + left. now apply fill_with_cur.
   - unfold draw_image_with_size_at, fill_rect. cbn [with_cur d_ctm d_clips].
     destruct (xf_is_identity (d_ctm st) && _ && _).
-    + right. destruct (chk32 _); cbn [bind lift_cur]; [|split; [reflexivity|discriminate]].
-      destruct (chk32 _); cbn [bind lift_cur]; [|split; [reflexivity|discriminate]].
+    + right. cbv zeta.
       change (surface_rect (with_cur st c)) with (surface_rect st).
       destruct (r_empty _).
       * split; [reflexivity|intros s' E; inversion E; reflexivity].
